@@ -3,7 +3,7 @@ import Pm.FrameDev
     `applyOuts`, and the single-run frame of one device's step inside the pass. -/
 namespace Pm.Daemon
 open Pm Pm.Client
-open Pm.Dev2 (Out Oracle CS Env Dev Action Store outCid cell)
+open Pm.Dev2 (Oracle CS Env Dev Action Store outCid cell)
 
 /-! ### restatement of `devPass` -/
 
@@ -16,7 +16,7 @@ def devEnv (p : PassIn) (w : W) (nd : Bytes × Dev) : Env :=
   | none => { env with revents := 0 }
 
 /-- one device's own `dev_post_poll` share: its state with the shared store plugged in, its kernel answers, the oracle -/
-def devStep (p : PassIn) (w : W) (o : Oracle) (nd : Bytes × Dev) : CS × Oracle × List Out × Option Nat :=
+def devStep (p : PassIn) (w : W) (o : Oracle) (nd : Bytes × Dev) : CS × Oracle × List Pm.Dev2.Out × Option Nat :=
   Pm.Dev2.postPoll { nd.2 with args := w.store } (devEnv p w nd) o
 
 /-- the world after the device's step, before its callbacks are delivered -/
@@ -36,4 +36,350 @@ theorem devPass_eq (p : PassIn) (a : DevAcc) (nd : Bytes × Dev) : devPass p a n
   unfold devPass devPass' devStep devEnv afterStep isAbortMsg
   rfl
 
+/-! ### `applyOuts`: callbacks reach only the client they are addressed to -/
+
+/-- client `g`'s record -/
+def cliRec (w : W) (g : Nat) : Option Cli := w.clients.find? (·.id == g)
+
+theorem find_map_id (F : Cli → Cli) (hF : ∀ c, (F c).id = c.id) (g : Nat) (l : List Cli) :
+    (l.map F).find? (·.id == g) = (l.find? (·.id == g)).map F := by
+  rw [List.find?_map]
+  congr 1
+  apply congrArg (fun q => List.find? q l)
+  funext c
+  simp [hF]
+
+theorem updCli_other (w : W) (id g : Nat) (f : Cli → Cli) (hf : ∀ c, (f c).id = c.id) (h : id ≠ g) :
+    cliRec (updCli w id f) g = cliRec w g := by
+  unfold cliRec updCli
+  dsimp only
+  rw [find_map_id (fun c => if c.id == id then f c else c) (by intro c; split <;> simp [hf]) g]
+  cases hq : w.clients.find? (·.id == g) with
+  | none => rfl
+  | some c =>
+    have : c.id = g := by simpa using List.find?_some hq
+    have hne : ¬ c.id = id := by rw [this]; exact fun e => h e.symm
+    simp [hne]
+
+theorem updCli_self (w : W) (g : Nat) (f : Cli → Cli) (hf : ∀ c, (f c).id = c.id) :
+    cliRec (updCli w g f) g = (cliRec w g).map f := by
+  unfold cliRec updCli
+  dsimp only
+  rw [find_map_id (fun c => if c.id == g then f c else c) (by intro c; split <;> simp [hf]) g]
+  cases hq : w.clients.find? (·.id == g) with
+  | none => rfl
+  | some c =>
+    have : c.id = g := by simpa using List.find?_some hq
+    simp [this]
+
+/-- everything of the world except the client list -/
+def sansClients (w : W) : W := { w with clients := [] }
+
+theorem updCli_sans (w : W) (id : Nat) (f : Cli → Cli) : sansClients (updCli w id f) = sansClients w := rfl
+
+@[simp] theorem put_id (c : Cli) (b : Bytes) : (put c b).id = c.id := rfl
+
+theorem actFinish_sans (w : W) (id : Nat) (e : Pm.Dev2.ActErr) (name : Bytes) : sansClients (actFinish w id e name).1 = sansClients w := by
+  unfold actFinish
+  split
+  · rfl
+  · split
+    · rfl
+    · dsimp only
+      split
+      · split <;> rfl
+      · rfl
+
+theorem actFinish_other (w : W) (id g : Nat) (e : Pm.Dev2.ActErr) (name : Bytes) (h : id ≠ g) :
+    cliRec (actFinish w id e name).1 g = cliRec w g := by
+  unfold actFinish
+  split
+  · rfl
+  · rename_i c hc
+    have hid : c.id = id := by simpa using List.find?_some hc
+    split
+    · rfl
+    · dsimp only
+      split
+      · split
+        · exact updCli_other _ _ _ _ (fun c => rfl) (by rw [hid]; exact h)
+        · rfl
+      · exact updCli_other _ _ _ _ (fun c => rfl) (by rw [hid]; exact h)
+
+/-- one callback -/
+def applyOut (name : Bytes) (acc : W × List String) (o : Pm.Dev2.Out) : W × List String :=
+  let (w, msgs) := acc
+  match o with
+  | .finish cid e => let (w, bad) := actFinish w cid e name; (w, if bad then msgs ++ ["O ABORT act_finish"] else msgs)
+  | .telemetry cid t =>
+    let t' := (String.fromUTF8! ⟨t.toArray⟩).replace "(dev)" ("(" ++ String.fromUTF8! ⟨name.toArray⟩ ++ ")")
+    (updCli w cid fun c => put c (bstr "305 " ++ t'.toUTF8.toList ++ crlf), msgs)
+  | .diag cid t => (updCli w cid fun c => put c (bstr "309 " ++ t ++ crlf), msgs)
+  | .sent _ => (w, msgs)
+  | .rxMismatch want got => (w, msgs ++ [s!"O RXMISMATCH want pat {want.pat} subj {hexOf want.subject} asked pat {got.1} subj {hexOf got.2}"])
+  | .abortAssert site => (w, msgs ++ [s!"O ABORT {site}"])
+
+theorem applyOuts_eq (w : W) (name : Bytes) (outs : List Pm.Dev2.Out) :
+    applyOuts w name outs = outs.foldl (applyOut name) (w, []) := by
+  unfold applyOuts applyOut
+  rfl
+
+theorem applyOut_sans (name : Bytes) (acc : W × List String) (o : Pm.Dev2.Out) :
+    sansClients (applyOut name acc o).1 = sansClients acc.1 := by
+  obtain ⟨w, msgs⟩ := acc
+  cases o <;> simp [applyOut, actFinish_sans, updCli_sans]
+
+theorem applyOut_other (name : Bytes) (acc : W × List String) (o : Pm.Dev2.Out) (g : Nat) (h : outCid o ≠ some g) :
+    cliRec (applyOut name acc o).1 g = cliRec acc.1 g := by
+  obtain ⟨w, msgs⟩ := acc
+  cases o with
+  | finish cid e => simp only [applyOut]; exact actFinish_other _ _ _ _ _ (by simpa [outCid] using h)
+  | telemetry cid t => simp only [applyOut]; exact updCli_other _ _ _ _ (fun c => rfl) (by simpa [outCid] using h)
+  | diag cid t => simp only [applyOut]; exact updCli_other _ _ _ _ (fun c => rfl) (by simpa [outCid] using h)
+  | sent _ => rfl
+  | rxMismatch _ _ => rfl
+  | abortAssert _ => rfl
+
+theorem foldl_applyOut_sans (name : Bytes) (outs : List Pm.Dev2.Out) (acc : W × List String) :
+    sansClients (outs.foldl (applyOut name) acc).1 = sansClients acc.1 := by
+  induction outs generalizing acc with
+  | nil => rfl
+  | cons o r ih => rw [List.foldl_cons, ih, applyOut_sans]
+
+theorem foldl_applyOut_other (name : Bytes) (g : Nat) (outs : List Pm.Dev2.Out) (acc : W × List String)
+    (h : ∀ x ∈ outs, outCid x ≠ some g) : cliRec (outs.foldl (applyOut name) acc).1 g = cliRec acc.1 g := by
+  induction outs generalizing acc with
+  | nil => rfl
+  | cons o r ih =>
+    rw [List.foldl_cons, ih _ (fun x hx => h x (by simp [hx])), applyOut_other _ _ _ _ (h o (by simp))]
+
+/-- `applyOuts` changes nothing but the client list -/
+theorem applyOuts_sans (w : W) (name : Bytes) (outs : List Pm.Dev2.Out) : sansClients (applyOuts w name outs).1 = sansClients w := by
+  rw [applyOuts_eq, foldl_applyOut_sans]
+
+/-- ... and in the client list only the records of clients a callback is addressed to -/
+theorem applyOuts_other (w : W) (name : Bytes) (outs : List Pm.Dev2.Out) (g : Nat) (h : ∀ x ∈ outs, outCid x ≠ some g) :
+    cliRec (applyOuts w name outs).1 g = cliRec w g := by
+  rw [applyOuts_eq, foldl_applyOut_other _ _ _ _ h]
+
+/-! ### the frame of one device's step inside the pass (single run) -/
+
+theorem devStep_frame (Q : Bytes → Bool) (C L : Nat → Prop) (p : PassIn) (w : W) (o : Oracle) (nd : Bytes × Dev)
+    (hQ : Pm.Dev2.QOff Q nd.2) (h0 : C 0 ∧ L 0) (hacts : Pm.Dev2.Keyed C L nd.2.acts) :
+    Pm.Dev2.PAFrame Q C L { nd.2 with args := w.store } (devStep p w o nd) :=
+  Pm.Dev2.postPoll_frame Q C L _ _ _ hQ h0 hacts
+
+/-- the world after `devPass`, apart from the client list, is the world after the device's own step -/
+theorem devPass_sans (p : PassIn) (a : DevAcc) (nd : Bytes × Dev) (hd : a.dead = false) :
+    sansClients (devPass p a nd).w = sansClients (afterStep a.w (devStep p a.w a.oracle nd).1) := by
+  rw [devPass_eq]; unfold devPass'; simp only [hd, Bool.false_eq_true, ↓reduceIte]
+  exact applyOuts_sans _ _ _
+
+theorem devPass_dead (p : PassIn) (a : DevAcc) (nd : Bytes × Dev) (hd : a.dead = true) :
+    devPass p a nd = { a with devs := a.devs ++ [nd] } := by
+  rw [devPass_eq]; unfold devPass'; simp [hd]
+
+/-- C05 frame, clients: a client (id `g ≠ 0`) none of whose actions is queued on the device keeps its record -/
+theorem devPass_client (p : PassIn) (a : DevAcc) (nd : Bytes × Dev) (g : Nat) (hg : g ≠ 0)
+    (hq : ∀ x ∈ nd.2.acts, x.clientId ≠ g) : cliRec (devPass p a nd).w g = cliRec a.w g := by
+  cases hd : a.dead with
+  | true => rw [devPass_dead _ _ _ hd]
+  | false =>
+    rw [devPass_eq]; unfold devPass'; simp only [hd, Bool.false_eq_true, ↓reduceIte]
+    have h := devStep_frame (fun _ => false) (fun c => c ≠ g) (fun _ => True) p a.w a.oracle nd
+      (fun _ _ _ _ => rfl) ⟨fun e => hg e.symm, trivial⟩ (fun x hx => ⟨hq x hx, trivial⟩)
+    rw [applyOuts_other _ _ _ g (fun x hx e => h.addr x hx g e rfl)]
+    rfl
+
+/-- C05 frame, devices: the step appends exactly one entry, under the device's own name, to the processed devices;
+    nothing already there is touched (and the devices still to come are not in the accumulator at all) -/
+theorem devPass_devs (p : PassIn) (a : DevAcc) (nd : Bytes × Dev) :
+    ∃ d', (devPass p a nd).devs = a.devs ++ [(nd.1, d')] ∧ d'.plugs = nd.2.plugs ∧ d'.scripts = nd.2.scripts := by
+  cases hd : a.dead with
+  | true => rw [devPass_dead _ _ _ hd]; exact ⟨nd.2, rfl, rfl, rfl⟩
+  | false =>
+    rw [devPass_eq]; unfold devPass'; simp only [hd, Bool.false_eq_true, ↓reduceIte]
+    have h := devStep_frame (fun _ => false) (fun _ => True) (fun _ => True) p a.w a.oracle nd
+      (fun _ _ _ _ => rfl) ⟨trivial, trivial⟩ (fun x hx => ⟨trivial, trivial⟩)
+    exact ⟨_, rfl, h.plugs, h.scripts⟩
+
+theorem devPass_store_eq (p : PassIn) (a : DevAcc) (nd : Bytes × Dev) (hd : a.dead = false) :
+    (devPass p a nd).w.store = (devStep p a.w a.oracle nd).1.dev.args := by
+  have := congrArg W.store (devPass_sans p a nd hd)
+  simpa [sansClients, afterStep] using this
+
+/-- C05 frame, store (by arglist): an arglist (id `al ≠ 0`) no action queued on the device refers to keeps its cell -/
+theorem devPass_store_cell (p : PassIn) (a : DevAcc) (nd : Bytes × Dev) (al : Nat) (hal : al ≠ 0)
+    (hq : ∀ x ∈ nd.2.acts, x.arglist ≠ al) : (devPass p a nd).w.store.lookup al = a.w.store.lookup al := by
+  cases hd : a.dead with
+  | true => rw [devPass_dead _ _ _ hd]
+  | false =>
+    rw [devPass_store_eq _ _ _ hd]
+    have h := devStep_frame (fun _ => false) (fun _ => True) (fun x => x ≠ al) p a.w a.oracle nd
+      (fun _ _ _ _ => rfl) ⟨trivial, fun e => hal e.symm⟩ (fun x hx => ⟨trivial, hq x hx⟩)
+    exact h.store.1 al (fun hn => hn rfl)
+
+/-- C05 frame, store (by node): in every arglist, the entries of nodes that are not wired to this device are kept — so
+    a request spanning this device and others keeps the per-node results of the others -/
+theorem devPass_store_nodes (p : PassIn) (a : DevAcc) (nd : Bytes × Dev) (Q : Bytes → Bool) (hQ : Pm.Dev2.QOff Q nd.2) (al : Nat) :
+    (cell (devPass p a nd).w.store al).filter (fun x => Q x.node) = (cell a.w.store al).filter (fun x => Q x.node) := by
+  cases hd : a.dead with
+  | true => rw [devPass_dead _ _ _ hd]
+  | false =>
+    rw [devPass_store_eq _ _ _ hd]
+    have h := devStep_frame Q (fun _ => True) (fun _ => True) p a.w a.oracle nd
+      hQ ⟨trivial, trivial⟩ (fun x hx => ⟨trivial, trivial⟩)
+    exact h.store.2 al
+
+/-- everything else in the world: only the three descriptor/pid counters move (and only upwards) -/
+theorem devPass_rest (p : PassIn) (a : DevAcc) (nd : Bytes × Dev) :
+    { (devPass p a nd).w with clients := a.w.clients, store := a.w.store, nsock := a.w.nsock, npair := a.w.npair, nfork := a.w.nfork } = a.w ∧
+    a.w.nsock ≤ (devPass p a nd).w.nsock ∧ a.w.npair ≤ (devPass p a nd).w.npair ∧ a.w.nfork ≤ (devPass p a nd).w.nfork := by
+  cases hd : a.dead with
+  | true => rw [devPass_dead _ _ _ hd]; simp
+  | false =>
+    have h := devPass_sans p a nd hd
+    generalize (devPass p a nd).w = w' at *
+    generalize (devStep p a.w a.oracle nd).1 = c at *
+    obtain ⟨cfg, clients, devs, specs, store, nextId, nacc, nsock, npair, nfork, alNext, sys, caps, exited, tmo, pendingX⟩ := w'
+    simp only [sansClients, afterStep, W.mk.injEq] at h
+    obtain ⟨h1, -, h3, h4, h5, h6, h7, h8, h9, h10, h11, h12, h13, h14, h15, h16⟩ := h
+    subst h1 h3 h4 h6 h7 h11 h12 h13 h14 h15 h16
+    subst h8 h9 h10
+    simp
+
+/-! ### what the step reads -/
+
+/-- the step of device `nd` reads, of the pass input and the world, only: the store, the three counters, the clock and
+    the `connect`/`SO_ERROR` answers, and the descriptor event addressed to `nd`'s own descriptor -/
+theorem devStep_reads (p p' : PassIn) (w w' : W) (o : Oracle) (nd : Bytes × Dev)
+    (hs : w.store = w'.store) (h1 : w.nsock = w'.nsock) (h2 : w.npair = w'.npair) (h3 : w.nfork = w'.nfork)
+    (hn : p.now = p'.now) (hc : p.con = p'.con) (he : p.soe = p'.soe)
+    (hev : ∀ fd, nd.2.fd = some fd → p.envs.find? (fun x => x.fd == fd) = p'.envs.find? (fun x => x.fd == fd)) :
+    devStep p w o nd = devStep p' w' o nd := by
+  have henv : devEnv p w nd = devEnv p' w' nd := by
+    unfold devEnv mkDevEnv
+    dsimp only
+    rw [hs, h1, h2, h3, hn, hc, he]
+    cases hfd : nd.2.fd with
+    | none => rfl
+    | some fd => simp only [hev fd hfd]
+  unfold devStep
+  rw [henv, hs]
+
+/-! ### the device phase of the pass as a whole -/
+
+/-- the entry device `nd` leaves in the processed list when the accumulator is `a` -/
+def stepped (p : PassIn) (a : DevAcc) (nd : Bytes × Dev) : Bytes × Dev :=
+  (nd.1, if a.dead then nd.2 else (devStep p a.w a.oracle nd).1.dev)
+
+theorem devPass_devs_eq (p : PassIn) (a : DevAcc) (nd : Bytes × Dev) : (devPass p a nd).devs = a.devs ++ [stepped p a nd] := by
+  cases hd : a.dead with
+  | true => rw [devPass_dead _ _ _ hd]; simp [stepped, hd]
+  | false => rw [devPass_eq]; unfold devPass'; simp [stepped, hd]
+
+/-- the accumulator when the turn of device number `i` comes -/
+def accAt (p : PassIn) (a : DevAcc) (l : List (Bytes × Dev)) (i : Nat) : DevAcc := (l.take i).foldl (devPass p) a
+
+@[simp] theorem accAt_zero (p a l) : accAt p a l 0 = a := by simp [accAt]
+theorem accAt_succ_cons (p a nd r i) : accAt p a (nd :: r) (i + 1) = accAt p (devPass p a nd) r i := by simp [accAt]
+theorem accAt_all (p a) (l : List (Bytes × Dev)) : accAt p a l l.length = l.foldl (devPass p) a := by simp [accAt]
+
+/-- the processed-device entries a list of devices leaves, each stepped from the accumulator of its own turn -/
+def steppedList (p : PassIn) : DevAcc → List (Bytes × Dev) → List (Bytes × Dev)
+  | _, [] => []
+  | a, nd :: r => stepped p a nd :: steppedList p (devPass p a nd) r
+
+/-- every device of the list is stepped, in order -/
+theorem foldl_devs (p : PassIn) (l : List (Bytes × Dev)) (a : DevAcc) :
+    (l.foldl (devPass p) a).devs = a.devs ++ steppedList p a l := by
+  induction l generalizing a with
+  | nil => simp [steppedList]
+  | cons nd r ih => rw [List.foldl_cons, ih, devPass_devs_eq, List.append_assoc]; rfl
+
+theorem steppedList_length (p : PassIn) (l : List (Bytes × Dev)) (a : DevAcc) : (steppedList p a l).length = l.length := by
+  induction l generalizing a with
+  | nil => rfl
+  | cons nd r ih => simp [steppedList, ih]
+
+theorem steppedList_names (p : PassIn) (l : List (Bytes × Dev)) (a : DevAcc) : (steppedList p a l).map (·.1) = l.map (·.1) := by
+  induction l generalizing a with
+  | nil => rfl
+  | cons nd r ih => simp [steppedList, ih, stepped]
+
+theorem steppedList_get (p : PassIn) (l : List (Bytes × Dev)) (a : DevAcc) (i : Nat) (nd : Bytes × Dev) (h : l[i]? = some nd) :
+    (steppedList p a l)[i]? = some (stepped p (accAt p a l i) nd) := by
+  induction l generalizing a i with
+  | nil => simp at h
+  | cons x r ih =>
+    cases i with
+    | zero => simp at h; subst h; simp [steppedList]
+    | succ i => simp at h; simp [steppedList, accAt_succ_cons, ih _ _ h]
+
+theorem foldl_devs_length (p : PassIn) (l : List (Bytes × Dev)) (a : DevAcc) :
+    (l.foldl (devPass p) a).devs.length = a.devs.length + l.length := by
+  rw [foldl_devs]; simp [steppedList_length]
+
+/-- the initial accumulator of the device phase -/
+def acc0 (w0 : W) : DevAcc :=
+  { w := w0, ylines := showSys w0.sys [], msgs := [], tmo := none, oracle := { calls := w0.pendingX }, devs := [], dead := false }
+
+/-- the world `daemonPass` returns -/
+theorem daemonPass_fst (w : W) (p : PassIn) :
+    (daemonPass w p).1 =
+      let w0 := cliPostPoll w p.acc p.envs
+      if w0.exited then w0 else
+      let a := w0.devs.foldl (devPass p) (acc0 w0)
+      { a.w with devs := a.devs, pendingX := [], tmo := a.tmo } := by
+  unfold daemonPass acc0
+  dsimp only
+  split <;> rfl
+
+/-! ### `install`: every device involved gets its actions in the same call -/
+
+/-- what `install` does to one device -/
+def instDev (com : Nat) (targets : List Bytes) (cid : Nat) (tele : Bool) (al : Nat) (nd : Bytes × Dev) : Bytes × Dev :=
+  let r := enqueue nd.2 com targets cid tele al
+  (nd.1, if r.2 > 0 && r.1.conn != 2 then { r.1 with retryCount := 0 } else r.1)
+
+theorem install_fold (com : Nat) (targets : List Bytes) (cid : Nat) (tele : Bool) (al : Nat) (l : List (Bytes × Dev))
+    (init : List (Bytes × Dev) × Nat) :
+    (l.foldl (fun (acc : List (Bytes × Dev) × Nat) (nd : Bytes × Dev) =>
+      let (d1, n) := enqueue nd.2 com targets cid tele al
+      let d1 := if n > 0 && d1.conn != 2 then { d1 with retryCount := 0 } else d1
+      (acc.1 ++ [(nd.1, d1)], acc.2 + n)) init).1 = init.1 ++ l.map (instDev com targets cid tele al) := by
+  induction l generalizing init with
+  | nil => simp
+  | cons nd r ih => rw [List.foldl_cons, ih]; simp [instDev]
+
+/-- `install` either refuses (the world is unchanged) or replaces *every* device by its enqueued version at once, opens
+    one new arglist, and touches nothing else -/
+theorem install_world (w : W) (c : Cli) (com : Com) (names : List Name) :
+    (install w c com names).1 = w ∨
+    ∃ args, (install w c com names).1 =
+      { w with devs := w.devs.map (instDev (comIdx com) (names.map ofChars) c.id c.telemetry w.alNext),
+               store := (w.alNext, args) :: w.store, alNext := w.alNext + 1 } := by
+  unfold install
+  dsimp only
+  split
+  · exact Or.inl rfl
+  · have h := install_fold (comIdx com) (names.map ofChars) c.id c.telemetry w.alNext w.devs ([], 0)
+    generalize hq : List.foldl _ ([], 0) w.devs = r at *
+    obtain ⟨devs, total⟩ := r
+    dsimp only
+    split
+    · exact Or.inl rfl
+    · simp only [List.nil_append] at h
+      subst h
+      exact Or.inr ⟨_, rfl⟩
+
 end Pm.Daemon
+
+section AxiomChecks
+open Pm.Daemon
+#print axioms devPass_client
+#print axioms devPass_devs
+#print axioms devPass_store_cell
+#print axioms devPass_store_nodes
+#print axioms devPass_rest
+end AxiomChecks
